@@ -150,13 +150,13 @@ func (vt *Model) ich(ps int) {
 	row := vt.cursor.row
 	line := vt.activeScreen[row]
 	for i := vt.margin.right; i > col; i -= 1 {
-		if (i - column(ps)) < 0 {
+		if (i - column(ps)) < col {
 			continue
 		}
 		line[i] = line[i-column(ps)]
 	}
 	for i := 0; i < ps; i += 1 {
-		if int(col)+i >= (vt.width() - 1) {
+		if int(col)+i >= vt.width() {
 			break
 		}
 		line[col+column(i)] = cell{
